@@ -11,6 +11,10 @@ rest of the file is kept verbatim):
   flipif    if c: A else: B    ->  if not c: B else: A
   flipcmp   a < b              ->  b > a   (single comparison operators < <= > >=)
   dagger    x.conj().T         ->  x.T.conj()   and back
+  swap      S1; S2             ->  S2; S1   two adjacent plain assignments `name = expr` directly in the function body, neither
+                                           reading or writing a name the other writes, both without calls that could have effects
+                                           (only attribute-free calls of names / numpy functions are accepted)
+  dead      (nothing)          ->  _unused_local = 0   inserted as the first statement after the docstring
 
 A mutant that adds a violated obligation or loses a confirmed one is a defect of the CHECKER."""
 
@@ -25,7 +29,7 @@ from .main import load_floors, lost_confirmed, run_property
 from .model import DEFAULT, MISSING, RepoModel
 
 REPO = os.environ.get("VERIF_REPO", "/repo")
-MUTATORS = ("kw", "pos", "hoist", "ret", "flipif", "flipcmp", "dagger")
+MUTATORS = ("kw", "pos", "hoist", "ret", "flipif", "flipcmp", "dagger", "swap", "dead")
 
 
 def _simple_stmt(s):
@@ -113,6 +117,39 @@ def mutants_of(model, f, fn=None):
             fn2.body[si] = ast.Return(value=ast.Name(id="_r_tmp", ctx=ast.Load()))
             fn2.body.insert(si, asg)
             yield ("ret", si, fn2)
+    # ---- swap adjacent independent assignments
+    def _rw(st):
+        w = {n.id for n in ast.walk(st) if isinstance(n, ast.Name) and isinstance(n.ctx, ast.Store)}
+        r = {n.id for n in ast.walk(st) if isinstance(n, ast.Name) and isinstance(n.ctx, ast.Load)}
+        return r, w
+
+    def _plain(st):
+        if not (isinstance(st, ast.Assign) and len(st.targets) == 1 and isinstance(st.targets[0], ast.Name)):
+            return False
+        for n in ast.walk(st.value):
+            if isinstance(n, (ast.Yield, ast.YieldFrom, ast.Await, ast.NamedExpr)):
+                return False
+            if isinstance(n, ast.Call):
+                fn_ = n.func
+                # method calls on locals may mutate (append, sort, ...): only np.<f>(...) / name(...) calls
+                if isinstance(fn_, ast.Attribute) and not (isinstance(fn_.value, ast.Name) and fn_.value.id in ("np", "numpy", "math", "scipy", "cvxpy", "picos", "itertools")):
+                    return False
+        return True
+
+    for si in range(len(fn.body) - 1):
+        a, b = fn.body[si], fn.body[si + 1]
+        if _plain(a) and _plain(b):
+            ra, wa = _rw(a)
+            rb, wb = _rw(b)
+            if not (wa & (rb | wb)) and not (wb & (ra | wa)):
+                fn2 = copy.deepcopy(fn)
+                fn2.body[si], fn2.body[si + 1] = fn2.body[si + 1], fn2.body[si]
+                yield ("swap", si, fn2)
+    # ---- dead local
+    fn2 = copy.deepcopy(fn)
+    at = 1 if (fn2.body and isinstance(fn2.body[0], ast.Expr) and isinstance(fn2.body[0].value, ast.Constant) and isinstance(fn2.body[0].value.value, str)) else 0
+    fn2.body.insert(at, ast.Assign(targets=[ast.Name(id="_unused_local", ctx=ast.Store())], value=ast.Constant(value=0), lineno=0, col_offset=0))
+    yield ("dead", 0, fn2)
     # ---- flipif
     ifs = [n for n in ast.walk(fn) if isinstance(n, ast.If) and n.orelse and not (len(n.orelse) == 1 and isinstance(n.orelse[0], ast.If))]
     for j, n in enumerate(ifs):
